@@ -21,7 +21,7 @@ META = {
                    "repository's client and server code, not about the websockets library or TCP.",
     "bounds": {"schemes": "all nine, small block parameters", "database": "3 keywords (utf-8 incl. a non-ASCII one), "
                "1-4 hex identifiers each", "server restart": "before any of the 5 workflow steps, before the searches, "
-               "or never (solver-chosen)", "client": "re-created from disk before every step"},
+               "or never (solver-chosen)", "client": "re-created from disk before every step; searches through fresh client objects or all through one", "keyword sequences": "each keyword once in two orders, and a 7-request sequence repeating present and absent keywords", "pace": "every step after the server's cleanup delays expired, or immediately (restart then drops the pending cleanups)"},
     "outside_bounds": "the websockets library, sockets, real event-loop timing; larger databases",
     "stubs": ["websockets.client.connect -> in-memory pair", "asyncio -> env/aio.py", "file managers -> env/memfs.py",
               "loggers silenced"],
@@ -55,12 +55,16 @@ def h_e2e(P, S):
     fs, rt = W._world()
     db = convert_database_keyword_to_bytes(copy.deepcopy(JSON_DB))
     restart_at = S.pick("restart_at", 0, 6)          # 6 = never
+    # pace: True = every operation (and the restart) waits until the server's cleanup delays have expired;
+    # False = the next operation / the restart comes at once (pending cleanups run late, or never if the server
+    # process is stopped before they fire)
+    settle = S.bool("settled")
     sid = ""
     steps = [("create", _cfg(scheme)), ("genkey", None), ("encrypt", db), ("upload_config", None), ("upload_db", None)]
     for i, (op, arg) in enumerate(steps):
         if restart_at == i:
             rt = R._restart()
-        out, sid = W._run_op(fs, rt, sid, op, arg)
+        out, sid = W._run_op(fs, rt, sid, op, arg, settle=settle)
         if out != "ok":
             return S.fail("step-%s-%s" % (op, out))
     if restart_at == 5:
@@ -68,18 +72,29 @@ def h_e2e(P, S):
     if P.get("twin"):
         return False
     words = list(JSON_DB.keys()) + ["absent"]
-    order = S.pick("order", 0, 1)
-    if order:
+    order = S.pick("order", 0, 2)
+    if order == 1:
         words.reverse()
-    for w in words:
-        n = len(W.WORLD["results"])
-        out, _ = W._run_op(fs, rt, sid, "search", w.encode("utf-8"))
+    elif order == 2:                                  # a sequence that repeats present and absent keywords
+        words = [words[0], words[1], words[0], "absent", words[2], "absent", words[0]]
+    one_client = S.bool("one_client")                 # all searches through ONE client object / connection
+    n = len(W.WORLD["results"])
+    if one_client:
+        out, _ = W._run_op(fs, rt, sid, "searches", [w.encode("utf-8") for w in words], settle=settle)
         if out != "ok":
             return S.fail("search-%s" % out)
-        got = W.WORLD["results"][n:]
-        if len(got) != 1:
-            return S.fail("search-delivered-%d-results" % len(got))
-        delivered = [BytesConverter.convert_bytes(x, "hex") for x in got[0][1]]
+    else:
+        for w in words:
+            out, _ = W._run_op(fs, rt, sid, "search", w.encode("utf-8"), settle=settle)
+            if out != "ok":
+                return S.fail("search-%s" % out)
+    got = W.WORLD["results"][n:]
+    if len(got) != len(words):
+        return S.fail("search-delivered-%d-results-for-%d-requests" % (len(got), len(words)))
+    for w, (gw, res) in zip(words, got):
+        if gw != w.encode("utf-8"):
+            return S.fail("result-delivered-to-the-wrong-request")
+        delivered = [BytesConverter.convert_bytes(x, "hex") for x in res]
         want = [h.lower() for h in JSON_DB.get(w, [])]
         if scheme == "DP17.Pi":
             if sorted(delivered) != sorted(want):
